@@ -1,6 +1,7 @@
 import Bpmn.Driver.Main
 import Bpmn.Driver.C01
 import Bpmn.Driver.C04
+import Bpmn.Driver.C05Trk
 open Bpmn.Driver
 
 def main : IO UInt32 :=
@@ -9,4 +10,5 @@ def main : IO UInt32 :=
     | "c05" => C04.checkEng params lines
     | "c05n" => C01.check params lines
     | "c05d" => C04.checkEng params lines
+    | "c05trk" => C05Trk.check params lines
     | _ => { bad := [s!"unknown family {family}"] })
